@@ -161,6 +161,9 @@ func (o hop) String() string {
 	case "find":
 		return fmt.Sprintf("find %s %s %s", o.name, b01(o.cbp), b01(o.mbf))
 	case "cap":
+		if o.n < 0 {
+			return "cap neg"
+		}
 		return fmt.Sprintf("cap %d", o.n)
 	case "int":
 		return fmt.Sprintf("int %d %s %s %s %d %s", o.face, o.name, b01(o.cbp), b01(o.mbf), o.nonce, opt(o.life))
@@ -182,6 +185,9 @@ func parseHop(s string) hop {
 	case "find":
 		return hop{kind: "find", name: parseNm(f[1]), cbp: f[2] == "1", mbf: f[3] == "1"}
 	case "cap":
+		if f[1] == "neg" {
+			return hop{kind: "cap", n: -1}
+		}
 		return hop{kind: "cap", n: unopt(f[1])}
 	case "int":
 		fc, _ := strconv.ParseUint(f[1], 10, 64)
@@ -377,6 +383,9 @@ func genCase(r *rand.Rand, mode string) (caseCfg, []hop) {
 		switch {
 		case x < 8:
 			o = hop{kind: "cap", n: r.Intn(9)}
+			if r.Intn(25) == 0 {
+				o.n = -1 // what int(uint64 >= 2^63) gives in fw/mgmt/cs.go: must behave as "unlimited", not crash
+			}
 		case x < 30 && !fwOnly || csOnly && x < 45:
 			o = hop{kind: "ins", name: pick(), variant: r.Intn(3), fresh: freshes[r.Intn(len(freshes))]}
 		case x < 50 && !fwOnly || csOnly && x < 85:
@@ -665,8 +674,14 @@ func (w *world) exec(o hop) {
 	w.line("gen %s", o)
 	switch o.kind {
 	case "cap":
-		table.SetCsCapacity(o.n)
-		w.line("op cap %d", o.n)
+		if o.n < 0 {
+			var huge uint64 = 1<<63 + 7
+			table.SetCsCapacity(int(huge))
+			w.line("op cap 100000") // unlimited for every universe of the harness
+		} else {
+			table.SetCsCapacity(o.n)
+			w.line("op cap %d", o.n)
+		}
 	case "ins":
 		d, raw := mkData(o.name, o.variant, o.fresh)
 		w.tbl.InsertData(d, raw)
@@ -792,9 +807,17 @@ func runCase(t *testing.T, out *bufio.Writer, k int, src string, cfg caseCfg, op
 		w.line("gen %s", cfg)
 		w.line("op init %d %d %s %s %d", time.Now().UnixNano(), cfg.cap, b01(cfg.serve), b01(cfg.admit), int64(cfg.dnlMs)*1000000)
 		w.dumpState()
-		for _, o := range ops {
-			w.exec(o)
-		}
+		func() {
+			defer func() {
+				if r := recover(); r != nil {
+					msg := strings.ReplaceAll(fmt.Sprint(r), " ", "_")
+					w.line("obs panic %s", msg)
+				}
+			}()
+			for _, o := range ops {
+				w.exec(o)
+			}
+		}()
 		w.line("end")
 		// leave the bubble cleanly: consume the pending update signal without rescheduling, stop the ticker
 		core.ShouldQuit = true
